@@ -129,11 +129,32 @@ def arith_sem_statement : Prop :=
   ∀ (P : Prims), P.Lawful → ∀ (env : Env) (e : Arith), e.WF P →
     evalI P env e.top = evalI P env e
 
-/-- Holds whenever no variable holds a name (in particular when variables hold integers),
-    side effects included: the interpreter expands `$a` when the operand is evaluated. -/
+/-- Holds whenever the variables read through an inlined-or-not `$name` operand of the expression do
+    not hold a valid name (in particular when they hold integers) — other variables may hold names
+    (`x=y; $(( x + $a ))`), and side effects are included: the interpreter expands `$a` when the
+    operand is evaluated. -/
 theorem arith_sem_partial (P : Prims) (hP : P.Lawful) (env : Env) (e : Arith) (hw : e.WF P)
+    (hE : ∀ n, n ∈ e.dollars → validName (env n) = false) : evalI P env e.top = evalI P env e :=
+  (evalI_simpl_on P hP e.dollars e hw (fun _ h => h) env hE).1
+
+/-- The earlier, narrower form: no variable at all holds a name. -/
+theorem arith_sem_partial_noNames (P : Prims) (hP : P.Lawful) (env : Env) (e : Arith) (hw : e.WF P)
     (hE : env.NoNames) : evalI P env e.top = evalI P env e :=
-  (evalI_simpl P hP e hw env hE).1
+  arith_sem_partial P hP env e hw (fun n _ => hE n)
+
+/-- `x=y; a=3; $(( x + $a ))`: `x` holds a name, `$a` does not — covered by the widened theorem only. -/
+example : (∀ n, n ∈ (Arith.binary opAdd (.lit [120]) (.dollar false [97])).dollars →
+      validName ((fun n => if n = [120] then [121] else if n = [97] then [51] else []) n) = false) ∧
+    ¬ Env.NoNames (fun n => if n = [120] then [121] else if n = [97] then [51] else []) := by
+  constructor
+  · intro n hn
+    simp [Arith.dollars] at hn
+    subst hn
+    decide
+  · intro h
+    have := h [120]
+    revert this
+    decide
 
 /-- The chain `a → aa → aaa → … → a¹⁰⁰ = 7`. -/
 def chainEnv : Env := fun n =>
@@ -151,9 +172,31 @@ theorem arith_sem_counterexample : ¬ arith_sem_statement := by
 def arith_sem_bash_statement : Prop :=
   ∀ (P : Prims) (env : IEnv) (e : Arith), e.WF P → evalBash P env e.top = evalBash P env e
 
+/-- Holds whenever no *inlinable* `$name` operand (valid name: `$1`, `$#`, `$?` are never inlined) is
+    assigned in the expression — assignments, `++`/`--` to other variables and positional or special
+    parameters next to assignments are all fine. -/
 theorem arith_sem_bash_partial (P : Prims) (env : IEnv) (e : Arith) (hw : e.WF P)
+    (hd : ∀ n, n ∈ e.dollars → validName n = true → n ∉ e.assigned P) :
+    evalBash P env e.top = evalBash P env e :=
+  (evalB_simpl P env (e.dollars.filter (validName ·)) e hw
+    (fun n h hv => List.mem_filter.mpr ⟨h, by simpa using hv⟩)
+    (fun n h => hd n (List.mem_filter.mp h).1 (by simpa using (List.mem_filter.mp h).2))
+    env (fun _ _ => rfl)).1
+
+/-- The earlier, narrower form: no `$name` operand at all is assigned. -/
+theorem arith_sem_bash_partial_all (P : Prims) (env : IEnv) (e : Arith) (hw : e.WF P)
     (hd : ∀ n, n ∈ e.dollars → n ∉ e.assigned P) : evalBash P env e.top = evalBash P env e :=
-  (evalB_simpl P env e.dollars e hw (fun _ h => h) hd env (fun _ _ => rfl)).1
+  arith_sem_bash_partial P env e hw (fun n h _ => hd n h)
+
+/-- `$(( (a = 5) + $1 ))` with a positional parameter literally named like a number, and
+    `$(( (a += 1) * $b ))`: covered by the widened theorem. -/
+example : ∀ n, n ∈ (Arith.binary opAdd (.paren (.binary opAssgn (.lit [49]) (.lit [53]))) (.dollar false [49])).dollars →
+    validName n = true →
+    n ∉ (Arith.binary opAdd (.paren (.binary opAssgn (.lit [49]) (.lit [53]))) (.dollar false [49])).assigned demoPrims := by
+  intro n hn hv
+  simp [Arith.dollars] at hn
+  subst hn
+  exact absurd hv (by decide)
 
 /-- `a=1; $(( (a = 5) + $a ))` is 6, `$(( (a = 5) + a ))` is 10. -/
 theorem arith_sem_bash_counterexample : ¬ arith_sem_bash_statement := by
@@ -211,7 +254,8 @@ theorem arith_model_agrees (q c : Nat) (ty : Ty)
 
 /-- … hence, end to end: what `Simplify` leaves in `$(( e ))` evaluates like `e` (interpreter). -/
 theorem arith_sem_tied (q c : Nat) (a : List Nat) (v : Bytes) (e : Arith)
-    (P : Prims) (hP : P.Lawful) (env : Env) (hw : e.WF P) (hE : env.NoNames) :
+    (P : Prims) (hP : P.Lawful) (env : Env) (hw : e.WF P)
+    (hE : ∀ n, n ∈ e.dollars → validName (env n) = false) :
     ∃ e', (simplify (.mk .arithmExp a v [e.toNode q c])).1 = .mk .arithmExp a v [e'.toNode q c] ∧
       evalI P env e' = evalI P env e :=
   ⟨e.top, simplify_arith_holder q c .arithmExp (Or.inl rfl) a v e, arith_sem_partial P hP env e hw hE⟩
